@@ -57,6 +57,42 @@ add('C19', 'E1', 'exploration',
     'dimensions n <= 6, m <= 5, maps from the affine/ridge families; degenerate equal bounds: the constrained column is not claimed for real-step methods (scipy documents that no step fits).',
     'DESIGN.md section 5/C19')
 
+add('C08', 'E1', 'exploration',
+    'bounded-exhaustive enumeration of shapes x target positions x replacement patterns x (function, method, n, order) on the real Derivative; oracle = bit-identity (NaN-aware) of the target element',
+    'For every shape of the menu, every target position and every replacement pattern of the other elements (all others := v; one other := v) from a 10-value pool, the real Derivative is called and the target element must be bit-identical under every replacement, the result shape must equal the input shape, the element must equal the scalar call (bit-identical for real-step methods, within the two error estimates for complex-step methods), and sentinel args/kwds must arrive unchanged at every evaluation.',
+    'exactly rounded test functions only; value pool of 10 numbers including an element that makes every step NaN; quick tier uses a rotated subset of targets/positions for the large shapes.',
+    'DESIGN.md section 5/C08')
+add('C09', 'E2+E3', 'model_checking',
+    'explicit-state BFS over operation histories of the real objects (exact-digest quotient) + stateless pre-emption-bounded exploration of real threads under a sys.monitoring baton scheduler; oracle = bit-identity with fresh-interpreter references',
+    'The property quantifies over histories and schedules. Histories: every sequence of {construct (own/shared generator), call, set n/order/method, restore, clear cache, warm cache} over a 6-configuration pool on two live objects is explored breadth-first to the stated depth on the exact-digest quotient of all library objects and module-level containers; every call is compared bit for bit with a fresh interpreter doing only that call. Schedules: every interleaving of 2 (3) real threads with <= 1 (2) pre-emptions at every executed library line (instruction granularity with 1 pre-emption in the thorough tier) is executed under a cooperative scheduler; per-thread observations and the final rule cache are compared with the references. Replays of schedule prefixes must be identical (ownership of nondeterminism is checked).',
+    'history depth 3 (quick) / 5 (thorough); at most 3 threads and 2 pre-emptions; cooperative scheduling does not model parallelism inside numpy C code; a free-running 16-thread pass is auxiliary evidence only.',
+    'DESIGN.md section 5/C09')
+add('C11', 'E1', 'exploration',
+    'bounded-exhaustive enumeration of the misuse menu (classes x complex-step methods x complex x / complex f x dimensions, wrong result counts, multicomplex n>2, too few steps for every (method, n, order), size mismatches, unknown paths) on the real API; oracle = the call raises ValueError',
+    'Every element of the finite misuse menu is executed on the real classes and functions; returning any value or raising another exception type is a violation; valid controls are executed alongside to make sure the harness is not vacuous.',
+    'menu sizes as stated in the evidence rule; functions whose output length changes between evaluations are outside the statement; Jacobian/Gradient accept any output length.',
+    'DESIGN.md section 5/C11')
+add('C15', 'E1', 'exploration',
+    'bounded-exhaustive enumeration of node families, all permutations of small node sets, expansion points and orders on the real fd_weights_all; exact Lagrange-derivative weights in rational arithmetic',
+    'All node families of sizes 2..14, all permutations up to size 5 (6-7 thorough), five expansion points and every n < len(x) are pushed through the real fd_weights_all/fd_weights and compared entrywise with weights computed by multiplying out the Lagrange basis polynomials in exact rationals (not Fornberg recursion), with a cancellation-free conditioning scale per entry.',
+    'allowance 100 eps S_kj with S the cancellation-free magnitude of the same weight (derived bound ~10 m u S); node sets from fixed families.',
+    'DESIGN.md section 5/C15')
+add('C16', 'E1', 'exploration',
+    'bounded-exhaustive enumeration of (n, m, grid length, grid kind, direction, monomial degree, centre) on the real fd_derivative; exact polynomial derivatives at every grid point',
+    'Every cell of the product is executed and every grid point (all boundary points at both ends, first/last interior point) is compared with the exact derivative of the monomial computed in rationals on the float grid, with the exact stencil weights providing the conditioning scale.',
+    'grids from four deterministic families (plus integer grids); allowance 100 eps sum S_j |f_j| over the documented stencil.',
+    'DESIGN.md section 5/C16')
+add('C17', 'E1+E2', 'exploration',
+    'bounded-exhaustive enumeration of (function, z0, n, initial radius, step_ratio, num_extrap) on the real taylor/derivative with exact complex jets; deviation-bounded enumeration of scripted environment answers replayed against the real Taylor.__call__ and a reference model of the radius-search protocol',
+    'Accuracy: every cell of the stated product is executed; clean-status results are compared coefficient by coefficient with exact series coefficients within K1 x estimate + K2 x eps x max|f|/R^k. Protocol: _check_fft/_poor_convergence are replaced by scripted answers and every answer sequence within 3 deviations is replayed against the real code and compared with a reference model (iterations, failed, degenerate, radius).',
+    'function family of 13 members, 5 expansion points; K1, K2 frozen; n >= 20 cells are dominated by the recorded F14 findings.',
+    'DESIGN.md section 5/C17')
+add('C18', 'E1', 'exploration',
+    'bounded-exhaustive enumeration of g x kernel x z0 x side x path x order x step_ratio on the real Limit/Residue, all singular/regular patterns of arrays up to length 3; oracle g(z0) in multiprecision',
+    'Every cell of the product is executed on the real Limit and Residue; |value - g(z0)| <= K1 x estimate + floor; regular points must be returned bit-identically with zero estimate; array shapes kept.',
+    'kernels restricted to well-conditioned removable singularities; K1, K2 frozen; three (order, ratio 16) cells are recorded findings (F13).',
+    'DESIGN.md section 5/C18')
+
 NOT_YET = {}
 
 ENGINES = [
